@@ -19,6 +19,14 @@ CHECKS = {
              "checked against the range law and rendered by the real MakeAdvancedHandler; errors>=1 <=> Faulty per module; kddp exit status and "
              "artefact presence are compared with the front-end verdict on a seeded sample.",
         note="Trusts: the probe's independent range law (code-point columns, line split on \\n); an error value returned by Parse counts as a delivered error."),
+    "C13": dict(
+        technique="runtime monitoring: law monitor + independent reference lexer over the tokens returned by the real scanner (exhaustive short strings)",
+        category="exploration", design="§4 C13",
+        text="Held-on-observed with an exhaustively enumerated core: scanner.Scan/ScanAlias are executed on every string up to length 5 (quick) / 7 "
+             "(thorough) over a 15-symbol lexical-class alphabet (alias mode: 18 symbols, length 4/5), on random whole-lexeme strings, on every .ddp "
+             "file of the repository and on ill-formed UTF-8; each returned token stream is judged by partition/position laws computed from the "
+             "source text, by an independent lexer for kinds and by the indentation rule.",
+        note="Trusts: the independent lexer (written from the lexical rules, keyword table = snapshot of the pinned keyword list); indent of tokens spanning lines is not judged."),
 }
 
 NOT_YET = {}
